@@ -14,7 +14,8 @@ RULE = "programs from every engine family, each run (a) once, (b) 1-3 more times
 TRUSTED = ['no ThreadSanitizer build: data races that do not change a trace are invisible to this check'] + list(gs.TRUSTED) + list(nt.TRUSTED)
 ASSUMPTIONS = ["the harness nodes' own tables are read-only during runs; per-run logs and fault counters are thread-local"] + list(gs.ASSUMPTIONS) + list(nt.ASSUMPTIONS)
 TECHNIQUE = 'Lean 4 proof (interleaving independence of state-owning executors, history-free intern tables) + differential runs: repeat, builder reuse, process history, concurrent threads, all compared with one model trace'
-LEVEL_TEXT = "Kernel-checked: executors that own their state produce, under every interleaving, the trace they produce alone; registry lookups depend on the key only, not on registration history; the engine model's run is a function of the program (no wall-clock term exists in it); for the GlobalState / record-replay harness layer, modelled as coded: the trace a run records does not depend on what the selected state held before (any prior buffers, any history of runs, copy-backs and seeds), keys a run does not own are untouched, re-running after copy-back is a fixpoint, further executors of one builder observe the same (run_trace_independent_of_prior_state, history_irrelevant, run_preserves_other_keys, rerun_idempotent, reuse_same_trace); the persistent :memory: sink appends by contract (persistent_sink_appends). PARTIAL: that the C++ runtime has no hidden shared mutable state is established only by the differential runs (same builder reused, after other runs, on concurrent threads), not by proof."
+LEVEL_TEXT = ("Kernel-checked: executors that own their state produce, under every interleaving, the trace they produce alone; registry lookups depend on the key only, not on registration history; the engine model's run is a function of the program (no wall-clock term exists in it); for the GlobalState / record-replay harness layer, modelled as coded: the trace a run records does not depend on what the selected state held before (any prior buffers, any history of runs, copy-backs and seeds), keys a run does not own are untouched, re-running after copy-back is a fixpoint, further executors of one builder observe the same (run_trace_independent_of_prior_state, history_irrelevant, run_preserves_other_keys, rerun_idempotent, reuse_same_trace); the persistent :memory: sink appends by contract (persistent_sink_appends). PARTIAL: that the C++ runtime has no hidden shared mutable state is established only by the differential runs (same builder reused, after other runs, on concurrent threads), not by proof."
+              ' One-shot evaluation notifications (Props/C07Notify.lean, stream notify): the trace of a run does not depend on the runs made earlier in the process or on the thread, also after a run whose notification callback threw (a failed batch is dropped, nothing is carried into the next run); drain order before = FIFO, after = LIFO, re-entrant registrations fire at the same boundary; a thread-local batch buffer is proved to leak across runs (thread_buffer_leaks: the seeded shape).')
 LEVEL_NOTE = 'Trusted: Lean kernel; model tied by correspondence. Data races and allocator effects that leave traces unchanged are outside the claim (named runtime behaviour the model cannot exhibit).'
 
 
